@@ -25,7 +25,10 @@ SKIP_MAJORS = {0x16}              # SD2: resource fork beside the file
 ROUTES = ["path", "fd1", "fd0"]
 #             kind, cap, n, skip
 SCHEDULES = [("w", 1, 1, 0), ("w", 7, 3, 0), ("w", 64, -1, 0), ("w", 1000, 1, 1), ("w", 3, 2, 2), ("weintr", 0, 2, 0), ("weintr", 0, 1, 1),
-             ("w", 4096, -1, 0), ("w", 13, 5, 1)]
+             ("w", 4096, -1, 0), ("w", 13, 5, 1),
+             # an interruption in the MIDDLE of one psf_fwrite / psf_fread: capped calls first, then EINTR (kind "we": `shortio weintr 2 <after>` next to `shortio w <cap> <n>`)
+             ("we", 7, -1, 0), ("we", 64, 3, 1), ("we", 1, 2, 0)]
+WE_EINTR, WE_AFTER = 2, 1
 
 
 def arm_lines(sched):
@@ -33,7 +36,11 @@ def arm_lines(sched):
     L = ["shortio off"]
     if skip:
         L.append("shortio skip %d" % skip)
-    L.append("shortio %s %d %d" % (kind, cap, n) if kind in ("w", "r") else "shortio %s %d" % (kind, n))
+    if kind in ("we", "re"):
+        L.append("shortio %s %d %d" % ("weintr" if kind == "we" else "reintr", WE_EINTR, WE_AFTER))
+        L.append("shortio %s %d %d" % (kind[0], cap, n))
+    else:
+        L.append("shortio %s %d %d" % (kind, cap, n) if kind in ("w", "r") else "shortio %s %d" % (kind, n))
     return L
 
 
@@ -160,7 +167,7 @@ def campaign(ctx, prop, quick=None):
     for (p, hx) in rjobs:
         i = p["i"]
         kind, cap, n, skip = p["sched"]
-        rs = ("reintr", 0, n, skip) if kind == "weintr" else ("r", cap, n, skip)
+        rs = ("reintr", 0, n, skip) if kind == "weintr" else ("re", cap, n, skip) if kind == "we" else ("r", cap, n, skip)
         p["rsched"] = rs
         p["r_ref"] = "\n".join(read_script(p["j"], hx, "vio", None)) + "\n"
         p["r_arm"] = "\n".join(read_script(p["j"], hx, p["route"], rs)) + "\n"
@@ -188,17 +195,18 @@ def campaign(ctx, prop, quick=None):
     # ---- correspondence: the retry loop of lean/SfModel/ShortIo.lean against the harness's own count of write () / read () calls.  A header-less RAW file
     #      written / read with ONE call makes ONE psf_fwrite / psf_fread of known size, so the number of calls is a function of the schedule alone ----
     cj = []
-    for k, (kind, cap, n, skip) in enumerate([s for s in SCHEDULES if s[0] == "w"] + [("w", 5, 4, 0), ("w", 100, 1, 0)]):
+    for k, (kind, cap, n, skip) in enumerate([s for s in SCHEDULES if s[0] in ("w", "we")] + [("w", 5, 4, 0), ("w", 100, 1, 0)]):
         nbytes = [1400, 600, 4096 + 7][k % 3]
         vals = [(7 * x + k) & 0xFF for x in range(nbytes)]
         hx = "".join("%02x" % v for v in vals)
         for e in (0, 2):
-            arm = ["shortio off"] + (["shortio skip %d" % skip] if skip else []) + (["shortio weintr %d" % e] if e else []) + ["shortio w %d %d" % (cap, n)]
+            after = (k % 3) if (kind == "we" and e) else 0
+            arm = ["shortio off"] + (["shortio skip %d" % skip] if skip else []) + (["shortio weintr %d %d" % (e, after)] if e else []) + ["shortio w %d %d" % (cap, n)]
             sc = arm + ["open h0 s0 w fmt=00040005 ch=1 sr=8000 route=%s" % ROUTES[k % 3], "wraw h0 %d %s" % (nbytes, hx), "shortio stat", "close h0", "shortio off", "dump s0"]
             rarm = [a.replace("shortio w ", "shortio r ").replace("weintr", "reintr") for a in arm]
             rs = ["store s0 " + hx] + rarm + ["open h1 s0 r fmt=00040005 ch=1 sr=8000 route=%s" % ROUTES[k % 3], "shortio off"] + rarm[1:] + ["rraw h1 %d" % nbytes, "shortio stat", "close h1", "shortio off"]
             cj.append(dict(name="calls|%d|%d" % (k, e), w="\n".join(sc) + "\n", r="\n".join(rs) + "\n", hx=hx,
-                           req="%d skip=%d eintr=%d cap=%d n=%d" % (nbytes, skip, e, cap, n), nbytes=nbytes))
+                           req="%d skip=%d after=%d eintr=%d cap=%d n=%d" % (nbytes, skip, after, e, cap, n), nbytes=nbytes))
     cout = ctx.batch([(c["name"] + "|w", c["w"]) for c in cj] + [(c["name"] + "|r", c["r"]) for c in cj], clean=True, op_timeout=20)
     model = ctx.run_model(["shortio"], "".join("w %s\nr %s have=%d\n" % (c["req"], c["req"].replace("%d " % c["nbytes"], "%d " % c["nbytes"], 1), c["nbytes"]) for c in cj)).strip().split("\n")
     for i, c in enumerate(cj):
@@ -229,7 +237,10 @@ def run(ctx, prop):
     corr = [f for f in findings if f["cat"] == "corr"]
     findings = [f for f in findings if f["cat"] != "corr"]
     for f in corr:
-        if not f["data_ok"]:          # the bytes themselves are wrong: a failing input
+        if prop == "C07" and f["side"] != "w":
+            stats["failures_of_other_properties"] += 1      # a read-side defect leaves the written bytes alone: C14's business
+            continue
+        if not f["data_ok"] and stats["failures"] < 2:          # the bytes themselves are wrong: a failing input
             stats["failures"] += 1
             ctx.violation("%s-%s-bytes" % (prop.lower(), f["name"]), "# %s short transfers on a real descriptor: the bytes of a one-call header-less file differ\n# %s\n%s" % (prop, f["text"], f["replay"]))
     ctx.coverage["traces_validated_against_impl"] += stats["call_count_cases"]
@@ -249,6 +260,7 @@ def run(ctx, prop):
             else "the descriptor routes give the results of the virtual-I/O route also when read () / write () transfer less than asked",
             j.fmt.name, j.ch, j.n, j.ty, f["text"]))
         ctx.violation("%s-%s-%s" % (prop.lower(), f["name"], f["cat"]), head + f["replay"])
+    corr = [f for f in corr if not (prop == "C07" and f["side"] != "w")]
     if corr and all(f["data_ok"] for f in corr) and not stats["failures"] and not ctx.violations:
         f = corr[0]
         ctx.violation("%s-shortio-correspondence" % prop.lower(), "# correspondence stream 'retry loop of psf_fread / psf_fwrite vs lean/SfModel/ShortIo.lean' no longer agrees on %d of %d cases; no failing input found\n# %s\n%s"
